@@ -303,7 +303,7 @@ fn ops(t: &T) -> u32 {
 
 /// Trees have a counterpart in the model's surface syntax (the round-trip theorem's domain):
 /// its wire form, without / with the redundant parentheses of the fully parenthesised
-/// rendering.  None: the tree contains a negative literal (a token pair in the grammar).
+/// rendering.  None: a '!' directly before a negative literal (print_min writes no parentheses there).
 fn st_wire(t: &T, full: bool) -> Option<String> {
     let sub = |x: &T| -> Option<String> {
         let w = st_wire(x, full)?;
@@ -313,6 +313,9 @@ fn st_wire(t: &T, full: bool) -> Option<String> {
         T::Id(n) => format!("(id {})", sx_str(n)),
         T::Cond(c, a, b) => format!("(cond {} {} {})", sub(c)?, sub(a)?, sub(b)?),
         T::Int(i) if *i >= 0 => format!("(lint {})", i),
+        T::Int(i) => format!("(lneg {})", i),
+        // print_min writes "!-1" without parentheses: not the minimal rendering of a surface tree
+        T::Not(a) if !full && matches!(**a, T::Int(i) if i < 0) => return None,
         T::Str(src, v) => format!("(lstr {} {})", sx_str(src), sx_str(v)),
         T::Bytes(src, v) => format!("(lbytes {} (str{}))", sx_str(src), v.iter().map(|b| format!(" {}", b)).collect::<String>()),
         T::Not(a) => format!("(not 0 {})", sub(a)?),
